@@ -279,6 +279,25 @@ class SymArray(_np.ndarray):
             getattr(ufunc, method)(*ins, **kw)
             lift_elements(ins[0])
             return None
+        if method == "__call__" and ufunc in (_np.isinf, _np.isnan, _np.isfinite, _np.signbit) and out is None:
+            # classification of values: every symbolic value is a finite real, except the IEEE specials of the extended-real mode
+            a = ins[0]
+            r = _np.empty(_np.shape(a), dtype=bool)
+            for idx in _np.ndindex(*r.shape):
+                v = a[idx] if _np.ndim(a) else a
+                v = v[()] if isinstance(v, _np.ndarray) else v
+                op = v.n.op if isinstance(v, S) else ("nan" if v != v else ("inf" if v in (float("inf"), float("-inf")) else "const"))
+                if ufunc is _np.isinf:
+                    r[idx] = op == "inf"
+                elif ufunc is _np.isnan:
+                    r[idx] = op == "nan"
+                elif ufunc is _np.isfinite:
+                    r[idx] = op not in ("inf", "nan")
+                else:
+                    if op == "nan":
+                        raise Unsupported("signbit of nan")
+                    r[idx] = bool(v < 0)
+            return r if r.shape else bool(r)
         if method == "reduce" and _REDUCE_CANON and ufunc in (_np.maximum, _np.minimum) and out is None \
                 and "where" not in kw and "initial" not in kw:
             axis = kw.get("axis", 0)
@@ -566,7 +585,24 @@ def _h_array_equal(a1, a2, equal_nan=False):
     return bool(_np.all(_np.equal(_as_obj(a1), _as_obj(a2))))
 
 
+def _h_isneginf(x, out=None):
+    return _np.logical_and(_np.isinf(x), _np.signbit(x) if _np.any(_np.isinf(x)) else False)
+
+
+def _h_isposinf(x, out=None):
+    return _np.logical_and(_np.isinf(x), _np.logical_not(_np.signbit(x)) if _np.any(_np.isinf(x)) else False)
+
+
+def _h_nan_to_num(x, copy=True, nan=0.0, posinf=None, neginf=None):
+    if _np.any(_np.isnan(x)) or _np.any(_np.isinf(x)):
+        raise Unsupported("np.nan_to_num on an IEEE special value")
+    return x.copy() if copy else x
+
+
 _FUNC_HANDLERS = {
+    _np.isneginf: _h_isneginf,
+    _np.isposinf: _h_isposinf,
+    _np.nan_to_num: _h_nan_to_num,
     _np.mean: _h_mean,
     _np.var: _h_var,
     _np.max: _h_max,
@@ -874,24 +910,86 @@ _TARGETS = [
 PROXY = None
 
 
+_SAVED = {}      # (module name, attribute) -> the NumPy object the synapgrad module had bound there
+
+
+def _targets():
+    """every loaded synapgrad module (a refactor may add modules; the fixed list is only the minimum)"""
+    names = set(_TARGETS) | {n for n in list(sys.modules) if n == "synapgrad" or n.startswith("synapgrad.")}
+    return [(n, sys.modules[n]) for n in sorted(names) if sys.modules.get(n) is not None]
+
+
+def _counterpart(proxy, v, plain):
+    """what a NumPy object bound in a synapgrad module is replaced with (None: leave it).  Covers `import numpy as np`,
+    `from numpy import random`, `from numpy.lib.stride_tricks import as_strided`, `from numpy.random import rand`,
+    `from numpy import zeros` ... - however the module spells its imports."""
+    if isinstance(v, (NPProxy, PlainProxy)):
+        return proxy
+    if isinstance(v, types.ModuleType):
+        nm = v.__name__
+        if nm == "numpy":
+            return proxy
+        if nm == "numpy.random":
+            return proxy.random
+        if not plain and nm == "numpy.lib":
+            return proxy.lib
+        if not plain and nm == "numpy.lib.stride_tricks":
+            return proxy.lib.stride_tricks
+        return None
+    if not callable(v) or isinstance(v, (type, _np.ufunc)):
+        return None
+    if getattr(v, "__self__", None) is _np.random.mtrand._rand:          # from numpy.random import rand, ...
+        return getattr(proxy.random, v.__name__)
+    if plain:
+        return None
+    nm = getattr(v, "__name__", None)
+    if nm and getattr(_np.lib.stride_tricks, nm, None) is v:
+        return getattr(proxy.lib.stride_tricks, nm)
+    if nm and getattr(_np, nm, None) is v:
+        try:
+            r = getattr(proxy, nm)
+        except Unsupported:
+            return None
+        return r if r is not v else None
+    return None
+
+
+def _rebind(proxy, plain):
+    for name, m in _targets():
+        for attr, v in list(vars(m).items()):
+            if attr.startswith("__"):
+                continue
+            orig = _SAVED.get((name, attr), v)
+            if isinstance(v, (NPProxy, PlainProxy, _RandomStub, _PlainRandom, _Lib, _StrideTricks)) or getattr(v, "__self__", None).__class__ in (
+                    NPProxy, PlainProxy, _RandomStub, _PlainRandom, _StrideTricks):
+                v = orig            # a binding of an earlier install: start from what the module really imported
+            try:
+                r = _counterpart(proxy, v, plain)
+            except Unsupported:
+                r = None
+            if r is not None:
+                _SAVED.setdefault((name, attr), orig)
+                setattr(m, attr, r)
+            elif (name, attr) in _SAVED:
+                setattr(m, attr, _SAVED[(name, attr)])
+
+
 def install():
-    """rebind ``np`` in every synapgrad module that has it; returns the proxy."""
+    """rebind NumPy (however it was imported) in every synapgrad module; returns the proxy."""
     global PROXY
     PROXY = NPProxy()
-    for name in _TARGETS:
-        m = sys.modules.get(name)
-        if m is not None and isinstance(getattr(m, "np", None), (types.ModuleType, NPProxy, PlainProxy)):
-            m.np = PROXY
+    _rebind(PROXY, False)
     return PROXY
 
 
 def uninstall():
     global PROXY
     PROXY = None
-    for name in _TARGETS:
+    for (name, attr), orig in list(_SAVED.items()):
         m = sys.modules.get(name)
-        if m is not None and isinstance(getattr(m, "np", None), (NPProxy, PlainProxy)):
-            m.np = _np
+        if m is not None:
+            setattr(m, attr, orig)
+    _SAVED.clear()
 
 
 class _PlainRandom:
@@ -970,10 +1068,8 @@ class PlainProxy:
 
 
 def install_plain(feed):
-    """only np.random is replaced, and only in the modules that draw random numbers."""
+    """only np.random is replaced (wherever the modules bound it)."""
+    uninstall()
     p = PlainProxy(feed)
-    for name in _TARGETS:
-        m = sys.modules.get(name)
-        if m is not None and isinstance(getattr(m, "np", None), (types.ModuleType, NPProxy, PlainProxy)):
-            m.np = p
+    _rebind(p, True)
     return p
